@@ -1,6 +1,6 @@
 SPECIFICATION Spec
 CONSTANTS
-  NFiles = 5
+  NFiles = 4
   MaxFail = 2
   Drain = TRUE
 INVARIANTS NoLossNoDup SuccessIffClean ErrorIsReal AddedWereLoaded
